@@ -11,6 +11,20 @@ ASSUME_COMMON = [
 ]
 
 
+def _also_nostats(ctx, tier, run, fns):
+    """thorough: repeat core-only rules on cachelito-core built without the `stats` feature"""
+    if tier != 'thorough':
+        return
+    c2 = ctx.nostats()
+    if c2 is None:
+        run.bad('extract', 'fail-closed/u1n', 'fail-closed: no fact file for cachelito-core --no-default-features')
+        return
+    before = len(run.instances)
+    for f in fns:
+        f(run, c2)
+    run.note('core rules repeated on cachelito-core --no-default-features: %d more instances' % (len(run.instances) - before))
+
+
 def run(pid, tier):
     fn = globals().get('prop_' + pid)
     if fn is None:
@@ -59,6 +73,13 @@ def prop_C17(ctx, tier):
     run.require('C17-L1', 'registry lock classes', len([c for c in classes if c.startswith('REG.') or c == 'STATS_REG']), 7)
     run.require('C17-L1', 'acquisition events', sum(len(v) for v in edges.values()), 1000)
     run.require('C17-L3', 'wrapper user-code sites', nw, 300)
+    if tier == 'thorough':
+        w5 = ctx.u5_world
+        gen = ctx.u5_generated()
+        e5, _ = L.check_lock_order(run, w5, label='repo-own/')
+        L.check_dashmap_discipline(run, w5, label='repo-own/')
+        run.require('C17-L1', 'generated bodies among the repository\'s own tests and examples', len(gen), 500)
+        run.exhaustive['repo_own_generated_bodies'] = len(gen)
     # selftest positives
     srun = Run('C17', tier, '')
     sw = ctx.st_world
@@ -83,6 +104,9 @@ def prop_C16(ctx, tier):
     w = ctx.world
     n, bad = L.check_reborrow(run, w)
     run.require('C16-R1', 'RefCell borrow sites', n, 20)
+    if tier == 'thorough':
+        n5, _ = L.check_reborrow(run, ctx.u5_world, label='repo-own/')
+        run.require('C16-R1', 'RefCell borrow sites incl. repository tests/examples', n5, 20)
     srun = Run('C16', tier, '')
     L.check_reborrow(srun, ctx.st_world)
     keys = {v['key'] for v in srun.violations}
@@ -104,6 +128,10 @@ def prop_C20(ctx, tier):
     fx = ctx.fx_async
     n, bad = L.check_yield(run, w, only=lambda b: b.crate is fx)
     run.require('C20-L1', 'yield points in generated async wrappers', n, 100)
+    if tier == 'thorough':
+        gen = ctx.u5_generated()
+        n5, _ = L.check_yield(run, ctx.u5_world, label='repo-own/', only=lambda b: b.id in gen)
+        run.require('C20-L1', 'yield points in the repository\'s own async decorated functions', n5, 50)
     srun = Run('C20', tier, '')
     L.check_yield(srun, ctx.st_world)
     keys = {v['key'] for v in srun.violations}
@@ -127,6 +155,12 @@ def prop_C18(ctx, tier):
     bodies = [b for b in prog.bodies.values()]
     n, bad = L.check_atomic_removal(run, prog, bodies, namer=ctx.label)
     run.require('C18-M1', 'store-removal/queue-removal pairs', n, 20)
+    if tier == 'thorough':
+        gen = ctx.u5_generated()
+        p5 = ctx.u5_prog
+        b5 = [b for b in p5.bodies.values() if b.id in gen]
+        n5, _ = L.check_atomic_removal(run, p5, b5, label='repo-own/', namer=ctx.label)
+        run.require('C18-M1', 'pairs in the repository\'s own generated callbacks', n5, 50)
     from .program import Program
     sprog = Program([ctx.selftest])
     srun = Run('C18', tier, '')
@@ -175,6 +209,7 @@ def prop_C06(ctx, tier):
     run.require('C06-E1', 'expiry test sites', sum(a['expiry'] for a in anchors.values() if a), 3)
     run.require('C06-E1', 'scenario outcomes', n, 300)
     K.check_frequency_shapes(run, ctx)
+    _also_nostats(ctx, tier, run, [K.check_expiry_form, K.check_lookup_expiry, K.check_frequency_shapes])
     run.exhaustive = {'flavours': 3, 'policies': 6, 'bound presence': 8}
     return run
 
@@ -190,8 +225,10 @@ def prop_C07(ctx, tier):
     run.require('C07-E1', 'lookup entry points', len([a for a in anchors.values() if a]), 3)
     run.require('C07-E1', 'LRU/FIFO hit outcomes', n, 40)
     S.check_orientation(run, ctx)
+    S.check_order_preserving(run, ctx, 'C07-S2')
     K.check_orphan_tolerance(run, ctx, 'C07-P1')
-    K.check_store_pairing(run, ctx)
+    K.check_store_pairing(run, ctx, 'C07-S3')
+    _also_nostats(ctx, tier, run, [lambda r, c: K.check_hit_effects(r, c, 'C07'), S.check_orientation])
     run.violations = [v for v in run.violations if v['rule'].startswith('C07')]
     return run
 
@@ -209,6 +246,7 @@ def prop_C08(ctx, tier):
     K.check_frequency_shapes(run, ctx)
     from . import rules_l as L
     L.check_no_try_locks(run, ctx.world, 'C08-E2', only=lambda b: b.crate is ctx.core)
+    _also_nostats(ctx, tier, run, [lambda r, c: K.check_hit_effects(r, c, 'C08'), K.check_selectors, K.check_frequency_shapes])
     run.violations = [v for v in run.violations if v['rule'].startswith('C08')]
     return run
 
@@ -232,6 +270,8 @@ def prop_C04(ctx, tier):
     K.check_lookup_expiry(run, ctx)  # expired purge leaves both (P2)
     S.check_random_victim(run, ctx)
     S.check_queue_dedupe(run, ctx)
+    _also_nostats(ctx, tier, run, [K.check_overflow_form, K.check_overflow_test_on_every_path, K.check_one_victim, K.check_store_pairing,
+                                    K.check_replacement_before_overflow_test, S.check_random_victim, S.check_queue_dedupe])
     run.violations = [v for v in run.violations if v['rule'].startswith('C04') or v['rule'] == 'C06-P1']
     run.exhaustive = {'flavours': 3, 'policies': 6, 'bound presence': 8}
     return run
@@ -249,6 +289,7 @@ def prop_C05(ctx, tier):
     K.check_memory_forms(run, ctx)
     K.check_memory_loop(run, ctx)
     S.check_estimators(run, ctx)
+    _also_nostats(ctx, tier, run, [K.check_memory_forms, K.check_memory_loop, S.check_estimators])
     W.check_memory_store_selected(run, ctx)
     return run
 
@@ -365,6 +406,7 @@ def prop_C13(ctx, tier):
               'invalidate_all_with passes each callback a closure applying the predicate to that cache\'s own name. Later eviction behaviour follows from C04 invariants (not decided here).',
               ASSUME_COMMON)
     S.check_registry_routing(run, ctx)
+    S.check_order_preserving(run, ctx, 'C13-W3')
     n = W.check_callbacks(run, ctx, rules=('C13',))
     run.require('C13-W1', 'registered callbacks', n, 300)
     return run
@@ -382,6 +424,8 @@ def prop_C14(ctx, tier):
     gen_witness.judge(run, ctx, 'C14-T1')
     n = W.check_wrapper_config(run, ctx, rules=('C14',))
     run.require('C14-W1', 'fixture wrappers', n, 300)
+    from . import rules_l as L
+    L.check_no_try_locks(run, ctx.world, 'C14-L1', only=lambda b: b.crate is ctx.core)
     return run
 
 
